@@ -445,7 +445,8 @@ class FaultSite(object):
         try:
             v = self.prog.const(f.module, e)
         except AnalysisError:
-            return None
+            t = prov.origin(cfg_of(f), n, e)        # a local holding a literal
+            v = t[1] if t[0] == "const" else None
         return v if isinstance(v, int) and not isinstance(v, bool) else None
 
 
@@ -516,4 +517,24 @@ def callable_invocations(prog):
                             for hc in node_calls(hn):
                                 if isinstance(hc.func, ast.Name) and prov.origin(hg, hn, hc.func) == ("param", hp):
                                     out.append((n, c, r, hc))
+    return out
+
+
+def event_fields(prog):
+    """The private fields of threadpool.EventData, found structurally: the one holding threading.Event() and the ones the
+    `data` / `exception` properties return.  -> {"event": "__x", "data": "__y", "exception": "__z"} (names as written)"""
+    out = {}
+    fi = prog.func("threadpool", "EventData.__init__")
+    for st in ast.walk(fi.node):
+        if isinstance(st, ast.Assign) and isinstance(st.value, ast.Call) and dump(st.value.func) in ("threading.Event", "Event") \
+                and isinstance(st.targets[0], ast.Attribute) and dump(st.targets[0].value) == "self":
+            out["event"] = st.targets[0].attr
+    for prop in ("data", "exception"):
+        f = prog.func("threadpool", "EventData." + prop)
+        rets = [n for n in ast.walk(f.node) if isinstance(n, ast.Return)]
+        names = set(n.value.attr for n in rets if isinstance(n.value, ast.Attribute) and dump(n.value.value) == "self")
+        if len(names) == 1 and len(rets) == 1:
+            out[prop] = names.pop()
+    if set(out) != set(["event", "data", "exception"]) or len(set(out.values())) != 3:
+        raise AnalysisError("anchor vanished: the event / data / exception fields of EventData (found %s)" % sorted(out.items()))
     return out
